@@ -131,6 +131,10 @@ fn reference_kinds(thorough: bool) -> Vec<Subject> {
         ("fault/variable-declared-only-in-another-program", vec![("Holder", "program", "PROGRAM Holder VAR zz : INT ; END_VAR zz := 1 ; END_PROGRAM")], ("C", "function", "FUNCTION C : INT VAR_INPUT a : INT ; END_VAR C := zz ; END_FUNCTION"), true),
         ("fault/constant-declared-only-in-another-function-block", vec![("Holder", "fb", "FUNCTION_BLOCK Holder VAR CONSTANT k : INT := 1 ; END_VAR VAR n : INT ; END_VAR n := k ; END_FUNCTION_BLOCK")], ("C", "fb", "FUNCTION_BLOCK C VAR n : INT ; END_VAR n := k ; END_FUNCTION_BLOCK"), true),
         ("fault/external-declared-only-in-another-function-block", vec![main, cfg, ("Holder", "fb", "FUNCTION_BLOCK Holder VAR_EXTERNAL CONSTANT G : INT ; END_VAR VAR n : INT ; END_VAR n := G ; END_FUNCTION_BLOCK")], ("C", "fb", "FUNCTION_BLOCK C VAR n : INT ; END_VAR n := G ; END_FUNCTION_BLOCK"), true),
+        // the same fault in two unrelated declarations: both are reported, in every order
+        ("fault/two-declarations-use-the-same-unknown-type", vec![level, ("Holder", "fb", "FUNCTION_BLOCK Holder VAR m : Missing ; n : INT ; END_VAR n := 1 ; END_FUNCTION_BLOCK")], ("C", "fb", "FUNCTION_BLOCK C VAR lv : Level ; m : Missing ; END_VAR lv := Low ; END_FUNCTION_BLOCK"), true),
+        ("fault/two-declarations-use-the-same-undeclared-variable", vec![("Holder", "fb", "FUNCTION_BLOCK Holder VAR n : INT ; END_VAR n := zz ; END_FUNCTION_BLOCK")], ("C", "program", "PROGRAM C VAR n : INT ; END_VAR n := zz ; END_PROGRAM"), true),
+        ("fault/two-declarations-use-the-same-undeclared-enumeration-value", vec![level, ("Holder", "fb", "FUNCTION_BLOCK Holder VAR lv : Level := Nope ; END_VAR lv := Low ; END_FUNCTION_BLOCK")], ("C", "fb", "FUNCTION_BLOCK C VAR lv : Level := Nope ; END_VAR lv := Low ; END_FUNCTION_BLOCK"), true),
         // one global name in two configurations, constant in one of them only
         ("fault/global-constant-in-one-of-two-configurations", vec![main, cfg, ("cfg2", "configuration", "CONFIGURATION cfg2 VAR_GLOBAL G : INT := 2 ; END_VAR RESOURCE res ON PLC PROGRAM p1 : Main ; END_RESOURCE END_CONFIGURATION")], ("C", "fb", "FUNCTION_BLOCK C VAR_EXTERNAL G : INT ; END_VAR VAR n : INT ; END_VAR n := G ; END_FUNCTION_BLOCK"), true),
         ("fault/local-constant-with-the-name-of-an-external", vec![main, ("cfgp", "configuration", "CONFIGURATION cfgp VAR_GLOBAL G : INT := 2 ; END_VAR RESOURCE res ON PLC PROGRAM p1 : Main ; END_RESOURCE END_CONFIGURATION"), ("Holder", "fb", "FUNCTION_BLOCK Holder VAR CONSTANT G : INT := 1 ; END_VAR VAR n : INT ; END_VAR n := G ; END_FUNCTION_BLOCK")], ("C", "fb", "FUNCTION_BLOCK C VAR_EXTERNAL G : INT ; END_VAR VAR n : INT ; END_VAR n := G ; END_FUNCTION_BLOCK"), true),
@@ -167,7 +171,10 @@ fn reference_kinds(thorough: bool) -> Vec<Subject> {
             decls.push(d("Extra", "program", "PROGRAM Extra VAR n : INT ; END_VAR n := 2 ; END_PROGRAM"));
         }
         let name: &'static str = Box::leak(format!("{}{}", if faulty { "ref/" } else { "ref/valid/" }, label).into_boxed_str());
-        out.push(Subject { name, decls, single_fault: faulty });
+        // the rules for undeclared variables and enumeration values stop at their first finding: a unit with two
+        // of them has two faults for the property (verdict only); an unknown type is reported at every use
+        let single = faulty && !label.contains("the-same-undeclared");
+        out.push(Subject { name, decls, single_fault: single });
     }
     out
 }
